@@ -9,9 +9,10 @@ import text_streams as ts
 ID = 'C13'
 LEAN_MODULE = 'Proofs.C13'
 THEOREMS = ['Fsic.C13.' + n for n in [
-    'term_re_group_order', 'matchAt_consumes', 'scanGo_spans', 'scanTerms_spans', 'split_yields_checked', 'unterminated_fence_swallows',
-    'format_safe', 'format_safe_arity', 'format_fails_manual_field', 'format_fails_empty_field',
-    'format_drops_escaped_term', 'unpack_fails_without_equals', 'format_fails_straddling_term', 'parseBody_errors', 'parse_error_classes',
+    'term_re_group_order', 'matchAt_consumes', 'scanGo_spans', 'scanTerms_spans', 'split_yields_checked',
+    'unterminated_fence_rejected', 'format_safe', 'format_safe_arity', 'format_cannot_fail',
+    'manual_field_rejected', 'empty_field_rejected', 'escaped_term_rejected', 'missing_equals_rejected',
+    'straddling_term_rejected', 'no_endogenous_rejected', 'parse_error_classes', 'parseScript_error_classes',
     'parseScript_stops_at_first_error', 'pyInt_accepts']]
 RULE = ('(a) every string up to length L over the 26-character driving alphabet of the property (quick L=4, thorough '
         'L=5) plus lengths L+1..6 over six reduced alphabets chosen for regex interactions, enumerated exhaustively; '
@@ -21,30 +22,32 @@ RULE = ('(a) every string up to length L over the 26-character driving alphabet 
         'deletion / duplication / swap, bracket insertion / removal, stray characters); (d) a dedicated stream of the '
         'inputs behind the known findings. distinct = distinct input text; non-trivial = the text contains at least one '
         'term match or yields at least one statement')
-TRUSTED = ['Python `re` engine: the Lean scanner/splitter are hand-written functional readings of term_re / equation_re, '
+TRUSTED = ['CPython compile(): the syntax check of parse_model (since a900a8c it compiles, it no longer executes; a '
+           'regression to exec() trips the canary and is a VIOLATION)',
+           'Python `re` engine: the Lean scanner/splitter are hand-written functional readings of term_re / equation_re, '
            'tied to `re` by exhaustive short strings + grammar scripts + mutants only',
            'CPython compile()/exec() and str.format (the latter mirrored by pyFormat for automatic/manual positional '
            'fields; attribute/item access, conversions and format specs are outside the model and skipped)',
            'harness/parser_oracle.py canary (sentinel `self`/`CANARY` in fsic.parser globals, patched print/open)']
 ASSUMPTIONS = ['code points <= U+00FF for the \\b / \\w decisions of the model (isWordU); whitespace and line-break '
                'classes are complete for Unicode',
-               'the symbol stage of parse_equation (Symbol.combine) is outside M2: inputs on which it raises '
-               'SymbolError are skipped by the correspondence, not by the oracle',
+               'of the symbol stage of parse_equation only the outcome class is modelled in M2 (symbolStage: function/'
+               'variable clash, Symbol.combine type clash, exactly one endogenous variable); the symbols are M3',
                'statements whose execution at parse time would not terminate are not generated (the oracle has a '
                '20 s alarm per input)']
 
 META = {
-    "text": "Model M2 (term_re scanner, split_equations_iter automaton, whitespace normalisation, int(), Term.__str__/code, str.format, parse_equation up to terms/equation/code) is total by construction (structural recursion only). Proved for all inputs: every alternative of term_re consumes >= 1 and <= the available characters (matchAt_consumes); finditer spans are non-empty, ordered, disjoint, inside the text (scanTerms_spans); every yielded statement is non-blank and matched by equation_re (split_yields_checked); format_safe: if every brace of a statement lies inside a matched term, the normalised template has exactly one automatic field per match and str.format succeeds with the terms in order (and fails when arguments are missing); parse_error_classes: a statement with '=', braces inside terms and no match straddling '=' fails only with ParserError/IndentationError; parseBody_errors pins each internal failure to its exact cause; the statement loop stops at the first error. Negations at witnesses (decide): 'Y = {0}', 'Y = {}' -> format failure, 'Y = {{X}}' drops the term, a parenthesised fence without '=' -> unpack failure, an unterminated fence swallows the rest silently.",
+    "text": "Model M2 (term_re scanner, split_equations_iter automaton incl. the unterminated-fence error, whitespace normalisation, int(), Term.__str__/code, str.format, parse_equation in the order of the code: brace count, braces outside matched terms, parse_equation_terms with the missing-'=' check, term spanning the '=', template/format, outcome class of the symbol loop, exactly-one-endogenous check) is total by construction (structural recursion only). Proved for all inputs: matchAt_consumes, scanTerms_spans (non-empty, ordered, disjoint spans inside the text), split_yields_checked, format_safe / format_cannot_fail (once the checks of parse_equation are passed the template has exactly one automatic field per term and both str.format calls succeed), and at FULL strength, without guards, parse_error_classes / parseScript_error_classes: every failure of parse_equation / of the statement loop on the model is ParserError, IndentationError or SymbolError. The former failure witnesses ('Y = {0}', 'Y = {}', 'Y = {{X}}', a fenced block in parentheses without '=', 'Y`=`', '1 = X', 'log = log(X)', an unterminated fence) are proved to be rejected with ParserError.",
     "design_ref": "DESIGN.md §5 M2, §6 C13, §7 rows 8, 9, 10, 18",
-    "note": "Partial: CPython compile/exec (the syntax check of parse_model), the `re` engine and the symbol stage (Symbol.combine, M3) are outside the proof; the model is tied to term_re/split_equations_iter/parse_equation by exhaustive strings (L<=4 quick, L<=5 thorough over the 26-character driving alphabet, longer over reduced alphabets), grammar scripts under all layouts (strict) and mutants (lenient: only the accepted / own-error / internal-error abstraction must agree, finer drift is reported in the evidence as model_drift). The oracle runs the property on the real parse_model/build_model with a canary (sentinel `self`/`CANARY` in fsic.parser globals, patched print/open). Eight open known findings (exec at parse time x3, stray braces, missing '=', two kinds of silently dropped statement, unterminated fence); candidate patches in findings/*.diff pass the 240-test baseline.",
-    "technique": "Lean 4 proof (structural recursion, single-step lemmas, shape invariant Auto preserved by the normalisation) + exhaustive/differential correspondence check + property oracle with canary"
+    "note": "Partial: CPython compile() (the syntax check of parse_model), the `re` engine and the symbols themselves (M3) are outside the proof; the model is tied to term_re/split_equations_iter/parse_equation by exhaustive strings (L<=4 quick, L<=5 thorough over the 26-character driving alphabet, longer over reduced alphabets), grammar scripts under all layouts (strict) and mutants (lenient: only the accepted / own-error / internal-error abstraction must agree; finer drift is reported as model_drift). The oracle runs the property on the real parse_model/build_model with a canary (sentinel `self`/`CANARY` in fsic.parser globals, patched print/open): a return to exec() is a violation. Nine C13 findings are fixed in /repo (a900a8c, b0dddfe, ce6705d, 3f601b8, d65c5fa); the oracle keys stay in the code so that a revert is reported.",
+    "technique": "Lean 4 proof (structural recursion, single-step lemmas, shape invariant Auto preserved by the normalisation, span invariant) + exhaustive/differential correspondence check + property oracle with canary"
 }
 
 FINDING_INPUTS = [
     'Y = 1/0', 'Y = CANARY()', '```\nCANARY()\n```', 'Y = print(1)', 'Y = {0}', 'Y = {}', 'Y = {{X}}', 'Y = { }',
     'Y = {[0]}', '1 = X', 'log = log(X)', 'Y = X\n```\nZ = W', '```', '(\n```\ny\n```\n)', 'as[1] = X', '{a} = X',
     '<e> = X', '`a` = X', '(Y X = Z)', 'Y = 1()', 'Y = X\nY = X', 'Y = X +', 'Y = X\n)', '  Y = X', 'Y = (X',
-    'Y = {X', 'if = X', 'Y = X[a]', 'Y = in[1]', '```\n(\n```\nY = X\n)', 'Y = max(X, 0)\nmax = 2', 'Y == X', '```\ns (= 1\n```\nY = X)', 'Y`=`', 'Y = X[`a=1`]', '\tY = X', 'Y = X\n  Z = 1', '  (Y =\n X)', 'Y = {a}\na = 1', ')', 'Y = X)',
+    'Y = {X', 'if = X', 'Y = X[a]', 'Y = in[1]', '```\n(\n```\nY = X\n)', 'Y = max(X, 0)\nmax = 2', 'Y == X', '```\ns (= 1\n```\nY = X)', 'Y`=`', 'Y = X[`a=1`]', 'Y = span', 'status = X', '\tY = X', 'Y = X\n  Z = 1', '  (Y =\n X)', 'Y = {a}\na = 1', ')', 'Y = X)',
 ]
 
 
@@ -57,7 +60,7 @@ def alpha_split(r):
 
 def alpha_model_pe(m):
     if m.startswith('err:'):
-        return 'own' if m[4:] in ('ParserError', 'IndentationError') else 'internal'
+        return 'own' if m[4:] in ('ParserError', 'IndentationError', 'SymbolError') else 'internal'
     return 'accepted'
 
 
